@@ -40,3 +40,9 @@ def _level_ok(ex, st, g, z):
 
 ghost('level_ok', ['g', 'z'], _level_ok,
       concrete=lambda g, z: (z in g.grid_sizes) if isinstance(z, str) else 0 <= z < g.levels)
+
+from pyvc.api import cls as _cls
+_cls('mapproxy.cache.file:FileCache', fields=dict(cache_dir='str', file_ext='str', image_opts='opaque',
+                                                 link_single_color_images='opaque', directory_permissions='opaque',
+                                                 file_permissions='opaque', lock_cache_id='str', coverage='opaque',
+                                                 _tile_location='opaque', _level_location='opaque'))
